@@ -307,6 +307,28 @@ def gen_strip():
         builtin.append((len(a), re.sub(r"\s+", "", a[2]) if len(a) >= 5 else "-"))
     facts["builtin_text_rule"] = builtin
 
+    # --- xsl:number level="any": where the backwards walk tests the from pattern -------------------------
+    en = read("XSLT/ElemNumber.cpp")
+    gp = _norm(function_body(en, r"ElemNumber::getPreviousNode\s*\([^)]*\)\s*const\s*\{", "ElemNumber::getPreviousNode"))
+    need(lit("XalanNode*next=pos->getPreviousSibling(); if(0==next){ next=pos->getParentNode();"), gp, "getPreviousNode: previous sibling, else parent")
+    need(lit("XalanNode*child=next; while(0!=child){ child=next->getLastChild(); if(0!=child) next=child; }"), gp, "getPreviousNode: dive to the last descendant of the previous sibling")
+    every = re.search(lit("pos=next; if(0!=pos&& 0!=fromMatchPattern&& fromMatchPattern->getMatchScore( pos, *this, executionContext)!=XPath::eMatchScoreNone){ pos=0; break; } if(0!=pos&& (0==countMatchPattern|| countMatchPattern->getMatchScore( pos,"), gp) is not None
+    parent_only = re.search(lit("next=pos->getParentNode(); if(0!=next&& (next->getNodeType()==XalanNode::DOCUMENT_NODE|| (0!=fromMatchPattern&& fromMatchPattern->getMatchScore( next, *this, executionContext)!=XPath::eMatchScoreNone))){ pos=0; break; }"), gp) is not None
+    if every == parent_only:
+        raise AnchorError("getPreviousNode (level any): where the from pattern is tested is not recognised (every node: %s, parents only: %s)" % (every, parent_only))
+    if len(re.findall(r"fromMatchPattern->getMatchScore\(", gp)) != 1:
+        raise AnchorError("getPreviousNode: the from pattern is tested in more than one place")
+    facts["number_from_on_every_node"] = every
+    fp = _norm(function_body(en, r"ElemNumber::findPrecedingOrAncestorOrSelf\s*\([^)]*\)\s*const\s*\{", "ElemNumber::findPrecedingOrAncestorOrSelf"))
+    if re.search(lit("if(0!=fromMatchPattern&&thePos!=context){ if(fromMatchPattern->getMatchScore( thePos,"), fp):
+        on_self = False
+    elif re.search(lit("if(0!=fromMatchPattern){ if(fromMatchPattern->getMatchScore( thePos,"), fp):
+        on_self = True
+    else:
+        raise AnchorError("findPrecedingOrAncestorOrSelf: the from test is not recognised")
+    need(lit("if(0!=countMatchPattern){ if(countMatchPattern->getMatchScore( thePos, *this, executionContext)!=XPath::eMatchScoreNone){ break; } }"), fp, "findPrecedingOrAncestorOrSelf: count test")
+    facts["number_from_on_self"] = on_self
+
     # --- output ----------------------------------------------------------------------------------------
     out = HEADER
     out += "From Coq Require Import NArith List String Bool.\nImport ListNotations.\nOpen Scope string_scope.\n\n"
@@ -321,6 +343,10 @@ def gen_strip():
     out += "Definition import_at_front : bool := %s.\n" % ("true" if facts["import_at_front"] else "false")
     out += "(* internalShouldStripSourceNode looks at xml:space / attributes of the source *)\n"
     out += "Definition consults_xml_space : bool := %s.\n\n" % ("true" if facts["consults_xml_space"] else "false")
+    out += "(* ElemNumber::getPreviousNode, level any: the from pattern is tested on every node of the backwards walk (true)\n   or only when the walk moves to a parent (false) *)\n"
+    out += "Definition number_from_on_every_node : bool := %s.\n" % ("true" if facts["number_from_on_every_node"] else "false")
+    out += "(* ElemNumber::findPrecedingOrAncestorOrSelf tests from on the context node itself *)\n"
+    out += "Definition number_from_on_self : bool := %s.\n\n" % ("true" if facts["number_from_on_self"] else "false")
     out += "(* (a) XPath::NodeTester::test*(context, nodeType): (name, can match a text node, calls shouldStripSourceNode) *)\n"
     out += "Definition census_testers : list (string * bool * bool) :=\n  [ " + ";\n    ".join(
         "(%s, %s, %s)" % (_coq_str(n), "true" if a else "false", "true" if c else "false") for n, a, c in testers) + " ].\n\n"
